@@ -34,6 +34,9 @@ func init() {
 	register("C13", runC13, checkC13R)
 	register("C14", runC14, checkC14)
 	register("C15", runC15, checkC15)
+	register("C16", runC16, checkC16)
+	register("C17", runC17, checkC17)
+	register("C18", runC18, checkC18)
 	register("C20", runC20, checkC20)
 }
 
